@@ -357,6 +357,68 @@ static void run_strings(void) {
     vh_flag("strings_complete", complete);
 }
 
+/* ---------------------------------------------------------------- Elias: extreme codes
+ * Hostile bit strings built from the code structure itself: k leading zeros (k up to 70: longer than any valid unary
+ * prefix), the terminating one, then a payload of every fill class - in particular the gamma code of a number near
+ * 2^64 used as the LENGTH field of a delta code - optionally after a few valid codes. */
+static void run_elias_extreme(void) {
+    if (!vh_section_begin("elias-extreme")) {
+        return;
+    }
+    static const int PAY[5] = {0, 7, 63, 64, 70};
+    for (int z = 0; z <= 70; z++) {
+        for (int fi = 0; fi < 5; fi++) {
+            for (int pi = 0; pi < 5; pi++) {
+                for (int pre = 0; pre < 3; pre++) {
+                    if (!vh_case()) {
+                        continue;
+                    }
+                    uint8_t s[64];
+                    memset(s, 0, sizeof s);
+                    size_t pos = 0;
+#define PUTBIT(b)                                                                                                  \
+    do {                                                                                                           \
+        if ((b) && pos / 8 < sizeof s) {                                                                           \
+            s[pos / 8] |= (uint8_t)(1u << (7 - pos % 8));                                                          \
+        }                                                                                                          \
+        pos++;                                                                                                     \
+    } while (0)
+                    /* valid codes first: gamma(1)="1", gamma(3)="011", gamma(1), gamma(2)="010", gamma(5)="00101" */
+                    static const char *PRE[3] = {"", "1011", "1011101000101"};
+                    for (const char *q = PRE[pre]; *q; q++) {
+                        PUTBIT(*q == '1');
+                    }
+                    for (int k = 0; k < z; k++) {
+                        PUTBIT(0);
+                    }
+                    PUTBIT(1);
+                    int P = PAY[pi] == 0 ? z : PAY[pi];
+                    for (int k = 0; k < P; k++) {
+                        int b = fi == 0 ? 1 : fi == 1 ? 0 : fi == 2 ? (k < 55) : fi == 3 ? (k & 1) : (k >= 8);
+                        PUTBIT(b);
+                    }
+                    /* tail: 24 more bits of ones or zeros (the payload a huge length would try to read) */
+                    for (int k = 0; k < 24; k++) {
+                        PUTBIT(fi & 1);
+                    }
+#undef PUTBIT
+                    size_t len = (pos + 7) / 8;
+                    if (len > sizeof s) {
+                        len = sizeof s;
+                    }
+                    snprintf(cur_desc, sizeof cur_desc, "elias extreme code: %s then %d zeros, a one, %d payload bits (fill class %d): input[%zu]=%s", pre ? "valid codes" : "nothing", z, P, fi, len, vh_hex(s, len));
+                    probe_elias(s, len);
+                    if (fi == 0 && pi == 0 && pre == 0) {
+                        char ck[40];
+                        snprintf(ck, sizeof ck, "elias-extreme/zeros%s", z < 64 ? "<64" : z == 64 ? "=64" : ">64");
+                        vh_class(ck, "%d zeros", z);
+                    }
+                }
+            }
+        }
+    }
+}
+
 /* ---------------------------------------------------------------- deviations from valid encodings */
 static uint8_t encbuf[1 << 20];
 
@@ -531,6 +593,8 @@ int main(int argc, char **argv) {
     run_tagged();
     run_tagged_negative();
     run_strings();
+    elias_light = 0;
+    run_elias_extreme();
     run_deviations();
     vh_write_out();
     return 0;
